@@ -1992,7 +1992,7 @@ func funcStrptime(v, x any) any {
 	if !ok {
 		return &func1TypeError{"strptime", v, x}
 	}
-	t, err := timefmt.Parse(s, format)
+	t, err := timefmt.ParseInLocation(s, format, time.UTC)
 	if err != nil {
 		return &func1WrapError{"strptime", v, x, err}
 	}
